@@ -4,17 +4,87 @@
   Theorems about `PolyVerif.Model.GraphIO` (model of /repo/generator/graph/instance.go, generator/app.go,
   nodes/struct_node.go SetInput/Dependencies, refutil/reflect.go, generator/sync/sync.go,
   generator/parameter/*.go), tied to the Go code by the `c12` correspondence stream.
-  Helper lemmas are `private` or named `*_aux`.
+  Property theorems only; helper lemmas live in `PolyVerif.Lemmas.GraphIO`.
 -/
 import PolyVerif.Model.GraphIO
+import PolyVerif.Lemmas.GraphIO
 
 namespace PolyVerif
 namespace C12
 open GraphIO
 
+variable {V J : Type}
+
+/-! ### histories -/
+
+/-- After ANY history of editing operations (create node, connect / disconnect scalar inputs, array add / remove /
+    clear, set parameter value / name / description, designate producer, metadata set / delete, delete a node
+    nothing depends on — failing operations leave the graph unchanged) started from the empty graph:
+    ids are unique and non-empty, every node has a registered type, every reference (wiring and producers)
+    resolves to a node of the graph whose output type matches, parameter payloads are re-readable. -/
+theorem edit_history_wf {E : Env V J} (hE : EnvOK E) (h : Hdr) (ops : List (Op J)) :
+    WF E (run E (Graph.init h) ops) :=
+  run_wf hE ops (init_wf h)
+
+/-! ### save → load -/
+
+/-- For every well-formed graph — in particular (`edit_history_wf`) every graph reachable by editing —,
+    if the comparator used by the save is, on each node's dependency names, a strict total order that puts
+    `P.i` before `P.j` whenever i < j, and at most one File/Image parameter carries a payload:
+    loading the saved file into a fresh application succeeds and yields the graph itself, up to `norm`
+    (a parameter's applied value becomes its current `Value()`): same nodes, ids and types, same scalar wiring,
+    the same array contents IN THE SAME ORDER, same parameters, producers, metadata and header. -/
+theorem decode_encode {E : Env V J} (hE : EnvOK E) {cmp : Name → Name → Bool} {g : Graph V} (hw : WF E g)
+    (hc : ∀ n ∈ g.nodes, ∀ T, E.types n.ty = some T → CmpOK cmp T n) (hf : FilePayloadLast E g) :
+    decode E Hdr.empty (encode E cmp g) = .ok g.norm := by
+  unfold decode encode
+  simp only [bind, Except.bind]
+  rw [decodeNodes_encode hE hw hc g.nodes (fun _ h => h) hf, decodeProds_encode hw g.prods hw.prods, applyHdr_empty]
+  rfl
+
+/-- what `norm` keeps: everything observable.  Ids, types, the wiring functions (array order included), name,
+    description, `Value()`, default and CLI binding of every parameter; producers, metadata, header. -/
+theorem norm_same (g : Graph V) :
+    g.norm.nodes.map (·.id) = g.nodes.map (·.id) ∧ g.norm.nodes.map (·.ty) = g.nodes.map (·.ty) ∧
+    g.norm.nodes.map (·.scal) = g.nodes.map (·.scal) ∧ g.norm.nodes.map (·.arrs) = g.nodes.map (·.arrs) ∧
+    g.norm.nodes.map (fun n => n.par.map Param.view) = g.nodes.map (fun n => n.par.map Param.view) ∧
+    g.norm.prods = g.prods ∧ g.norm.md = g.md ∧ g.norm.hdr = g.hdr := by
+  refine ⟨?_, ?_, ?_, ?_, ?_, rfl, rfl, rfl⟩ <;> simp only [Graph.norm, List.map_map] <;> apply List.map_congr_left <;>
+    intro n _ <;> simp only [Function.comp, Node.norm]
+  cases n.par with
+  | none => rfl
+  | some p => simp [Param.view, Param.norm_value]; simp [Param.norm]
+
+/-- Saving the reloaded graph reproduces the file, at schema level: `encode (decode (encode g)) = encode g`.
+    (encoding/json writes object keys sorted and jbtf lays the buffer out from the same data, so equal schemas are
+    equal bytes — that last step is the trusted one, observed by the `bytes_identical` oracle.) -/
+theorem encode_idempotent {E : Env V J} (hE : EnvOK E) {cmp : Name → Name → Bool} {g : Graph V} (hw : WF E g)
+    (hc : ∀ n ∈ g.nodes, ∀ T, E.types n.ty = some T → CmpOK cmp T n) (hf : FilePayloadLast E g) :
+    (decode E Hdr.empty (encode E cmp g)).map (encode E cmp) = .ok (encode E cmp g) := by
+  rw [decode_encode hE hw hc hf]
+  simp only [Except.map, encode, Graph.norm, List.map_map]
+  congr 2
+  apply List.map_congr_left
+  intro n _
+  exact encodeNode_norm E cmp n
+
+/-- the order in which Go ranges over its node map does not matter: encoding is per node -/
+theorem encode_nodes_perm (E : Env V J) (cmp : Name → Name → Bool) {g g' : Graph V} (h : g.nodes.Perm g'.nodes) :
+    (encode E cmp g).nodes.Perm (encode E cmp g').nodes :=
+  h.map _
+
+/-- sort.Slice is trusted only to return SOME permutation that is sorted w.r.t. the comparator; under `CmpOK`
+    that permutation is unique, so it is the list the model's insertion sort computes -/
+theorem sorted_unique {E : Env V J} (hE : EnvOK E) {ty : TyName} {T : NodeType} (hT : E.types ty = some T)
+    {cmp : Name → Name → Bool} {n : Node V} (hc : CmpOK cmp T n) {l : List Dep} (hperm : l.Perm (depsOf T n))
+    (hsorted : l.Pairwise (fun a b => cmp a.name b.name = true)) :
+    l = sortBy (fun a b => cmp a.name b.name) (depsOf T n) :=
+  let ⟨hS, hN⟩ := depsOf_strict hE hT hc
+  sorted_unique_aux hS hN hperm hsorted
+
 /-! ### the comparator: what the pinned (pre-5b98158) order does to ten or more array entries -/
 
-/-- the lower-cased string order puts `Values.10` before `Values.2` … -/
+/-- the lower-cased string order puts `Values.10` before `Values.2`; the numeric-aware one does not -/
 theorem lexicographic_misorders : lexLess "Values.10".toList "Values.2".toList = true ∧
     depLess "Values.10".toList "Values.2".toList = false ∧ depLess "Values.2".toList "Values.10".toList = true := by
   decide
